@@ -293,7 +293,7 @@ package proportion
 //@ define reqMinusAllocSame(q *rs.QueueAttributes) bool = q.CPU.Request - q.CPU.Allocated == old(q.CPU.Request - q.CPU.Allocated) && q.Memory.Request - q.Memory.Allocated == old(q.Memory.Request - q.Memory.Allocated) && q.GPU.Request - q.GPU.Allocated == old(q.GPU.Request - q.GPU.Allocated)
 
 //@ func (*proportionPlugin).updateQueuesCurrentResourceUsage
-//@   props C14 C08 C10
+//@   props C14 C08 C10 C07
 //@   requires pp != nil && ssn != nil && ssn.ClusterInfo != nil
 //@   requires jobsOK(pp, ssn)
 //@   requires tasksOK(ssn)
